@@ -64,6 +64,9 @@ func stringChain(v ssa.Value) (steps []chainStep, root ssa.Value) {
 		case "strings.ToValidUTF8":
 			steps = append(steps, chainStep{"tovalid", call, a[0]})
 			v = a[0]
+		case "strings.ToLower":
+			steps = append(steps, chainStep{"lower", call, a[0]})
+			v = a[0]
 		default:
 			// a helper of the repository with one string parameter whose result
 			// derives from it: its steps are spliced in
